@@ -20,6 +20,10 @@ structure STok where
   score : Option Nat
   deriving Repr, DecidableEq
 
+/-- what the snippet generator sees of a token, `sc` = the term lookup
+`terms.get(&token.text.to_lowercase())` (any function) -/
+def toSTok (sc : Token → Option Nat) (t : Token) : STok := ⟨t.from_, t.to, sc t⟩
+
 /-- `FragmentCandidate` -/
 structure Frag where
   score : Nat
